@@ -67,9 +67,10 @@ Definition interleaving (sc : scenario) (op : opk) (ps : list pipe) : option (li
         (* cold sources play their script when they are subscribed: the crate subscribes the trigger of take_until / skip_until /
            sample first, everything else in source order *)
         let order := match op with OTakeUntil | OSkipUntil | OSample => [1; 0] | _ => seq 0 (length ps) end in
-        match rest with
-        | [] => Some (flat_map (fun j => map (fun e => (j, e)) (match scripts_of sc j with l :: _ => l | [] => [] end)) order)
-        | _ => None
+        match rest, op with
+        | _, OFlatMap _ => None        (* a cold inner source is subscribed once per outer item, inside the outer's emission: no fixed interleaving *)
+        | [], _ => Some (flat_map (fun j => map (fun e => (j, e)) (match scripts_of sc j with l :: _ => l | [] => [] end)) order)
+        | _, _ => None
         end
       else None
   | _ => None
